@@ -1690,7 +1690,12 @@ impl Visitor for Checker {
                         ));
                         return;
                     }
-                    shape = narrowed;
+                    // Narrowing two tuples yields the one with fewer fields.
+                    // The constraint vets the value, it does not take fields
+                    // away from it: the binding keeps every field it was given.
+                    if !matches!(shape, Shape::Tuple(_)) {
+                        shape = narrowed;
+                    }
                 }
                 if let Shape::TypeErr(pos, msg) = &shape {
                     self.err_stack.push(BuildError::with_pos(
